@@ -31,7 +31,7 @@ struct StopExploring;
 /// operations, sequence contents, tie shapes, renderings) are judged at once, and the first bad one ends
 /// the exploration; the outcome SET is returned for the serialisability comparison.  `cap_s` bounds the wall
 /// time of one exploration (reported as CAPPED; what was explored until then still counts).
-fn explore(threads: u32, k: usize, serial: bool, bound: Option<usize>, cold: bool, solo_shape: Option<Vec<u32>>, cap_s: u64) -> (u64, BTreeSet<Outcome>, bool) {
+fn explore(threads: u32, k: usize, serial: bool, bound: Option<usize>, cold: bool, solo_shape: Option<Vec<u32>>, cap_s: u64, tall: usize) -> (u64, BTreeSet<Outcome>, bool) {
     EXECS.store(0, Ordering::SeqCst);
     OUTCOMES.lock().unwrap().clear();
     let mut b = loom::model::Builder::new();
@@ -41,10 +41,10 @@ fn explore(threads: u32, k: usize, serial: bool, bound: Option<usize>, cold: boo
     let t0 = std::time::Instant::now();
     let r = std::panic::catch_unwind(std::panic::AssertUnwindSafe(|| {
         b.check(move || {
-            let o = run_once(threads, k, serial, cold);
+            let o = run_any(threads, k, serial, cold, tall);
             EXECS.fetch_add(1, Ordering::SeqCst);
             if let Some(shape) = &solo_shape {
-                if let Err(m) = check_results(&o, k, shape) {
+                if let Err(m) = if tall > 0 { check_tall(&o, tall) } else { check_results(&o, k, shape) } {
                     let mut fb = FIRST_BAD.lock().unwrap();
                     if fb.is_none() {
                         *fb = Some(format!("{} :: {}", m, outcome_json(&o)));
@@ -88,14 +88,32 @@ fn main() {
     };
     let cap_s: u64 = args.get(4).and_then(|s| s.parse().ok()).unwrap_or(60);
     let mut capped = vec![];
-    let (n1, rseq, c1) = explore(threads, k, true, bound, false, None, cap_s);
+    let (n1, rseq, c1) = explore(threads, k, true, bound, false, None, cap_s, 0);
     println!("SERIAL executions={} outcomes={}", n1, rseq.len());
-    let (n2, rpar, c2) = explore(threads, k, false, bound, false, Some(solo_shape.clone()), cap_s);
+    let (n2, rpar, c2) = explore(threads, k, false, bound, false, Some(solo_shape.clone()), cap_s, 0);
     println!("PARALLEL executions={} outcomes={}", n2, rpar.len());
     // cold start: nothing has created a node before the threads do
-    let (n3, cseq, c3) = explore(threads, k, true, bound, true, None, cap_s);
-    let (n4, cpar, c4) = explore(threads, k, false, bound, true, Some(solo_shape.clone()), cap_s);
+    let (n3, cseq, c3) = explore(threads, k, true, bound, true, None, cap_s, 0);
+    let (n4, cpar, c4) = explore(threads, k, false, bound, true, Some(solo_shape.clone()), cap_s, 0);
     println!("COLD serial_executions={} serial_outcomes={} executions={} outcomes={}", n3, cseq.len(), n4, cpar.len());
+    // tall treaps: recursion as deep as the tree, on all threads at once
+    let tall: usize = args.get(5).and_then(|s| s.parse().ok()).unwrap_or(0);
+    let (mut tseq, mut tpar) = (BTreeSet::new(), BTreeSet::new());
+    let (mut c5, mut c6) = (false, false);
+    if tall > 0 {
+        let (n5, s5, cc5) = explore(threads, k, true, bound, false, None, cap_s, tall);
+        let (n6, s6, cc6) = explore(threads, k, false, bound, false, Some(vec![]), cap_s, tall);
+        println!("TALL n={} serial_executions={} serial_outcomes={} executions={} outcomes={}", tall, n5, s5.len(), n6, s6.len());
+        tseq = s5;
+        tpar = s6;
+        c5 = cc5;
+        c6 = cc6;
+    }
+    for (c, what) in [(c5, "tall serialised"), (c6, "tall unserialised")] {
+        if c {
+            capped.push(what);
+        }
+    }
     for (c, what) in [(c1, "warm serialised"), (c2, "warm unserialised"), (c3, "cold serialised"), (c4, "cold unserialised")] {
         if c {
             capped.push(what);
@@ -129,6 +147,15 @@ fn main() {
         for o in set.iter() {
             if !reference.contains(o) {
                 println!("NOT_SERIALISABLE [{label} start] {}", outcome_json(o));
+                bad += 1;
+                break;
+            }
+        }
+    }
+    if tall > 0 && !c5 {
+        for o in tpar.iter() {
+            if !tseq.contains(o) {
+                println!("NOT_SERIALISABLE [tall treaps] {}", outcome_json(o));
                 bad += 1;
                 break;
             }
